@@ -70,7 +70,7 @@ func init() {
 		return mkStr(ex.nondetOctets(a[0]))
 	}
 	harnessAPI["nondetBytesN"] = func(ex *Exec, fr *frame, a []value) value {
-		n := int(a[0].(uint64))
+		n := int(ex.concInt(a[0], 64, true, 256, "nondetBytesN length"))
 		out := make([]value, n)
 		for i := range out {
 			out[i] = ex.newNondet("u8", 8)
@@ -78,7 +78,7 @@ func init() {
 		return out
 	}
 	harnessAPI["nondetStringN"] = func(ex *Exec, fr *frame, a []value) value {
-		n := int(a[0].(uint64))
+		n := int(ex.concInt(a[0], 64, true, 256, "nondetStringN length"))
 		out := make([]value, n)
 		for i := range out {
 			out[i] = ex.newNondet("u8", 8)
@@ -135,7 +135,7 @@ func init() {
 			return v
 		}
 		idx := len(ex.ps.nondets)
-		i := ex.choose(n, "verifChoice")
+		i := ex.chooseK('c', n, "verifChoice")
 		ex.ps.nondets = append(ex.ps.nondets, &Nondet{Name: fmt.Sprintf("n%d_choice", idx), Kind: "choice", W: 64, Conc: true, CV: uint64(i)})
 		return uint64(i)
 	}
